@@ -1,285 +1,21 @@
 """Replay of a solver counterexample on the REAL stack (real torch, real numpy/quadprog/cvxpy, real torchjd from
 /repo/src).  Run with /venv/bin/python.  Prints one line `REPLAY {json}`; `reproduced: true` means the property
-clause named in the counterexample is violated by the real code on the concrete input (with a float tolerance
-far below the size of the modelled discrepancy).  Each handler recomputes the clause with an independent
-numpy/python reference - it does not trust the values predicted by the model."""
-from __future__ import annotations
-
-import itertools
+clause named in the counterexample is violated by the real code on the concrete input.  Handlers live in
+real_*.py next to this file; each recomputes the clause with an independent numpy/python reference."""
+import glob
 import json
-import math
 import os
 import sys
-from fractions import Fraction
 
 sys.path.insert(0, os.path.join(os.environ.get("VERIF_REPO", "/repo"), "src"))
 sys.path.insert(0, os.path.dirname(os.path.abspath(__file__)))
-import numpy as np
-import torch
-
-TOL = 1e-6
-
-
-def num(x):
-    if isinstance(x, str):
-        if x in ("nan", "inf", "-inf"):
-            return float(x)
-        return float(Fraction(x))
-    if isinstance(x, dict):
-        return float(Fraction(int(x["num"]), int(x["den"])))
-    if isinstance(x, bool):
-        return x
-    return float(x)
-
-
-def arr(x):
-    if isinstance(x, np.ndarray):
-        return x
-    if isinstance(x, (list, tuple)):
-        return [arr(y) for y in x]
-    return num(x)
-
-
-def close(a, b, tol=TOL):
-    a, b = np.asarray(a, dtype=float), np.asarray(b, dtype=float)
-    if a.shape != b.shape:
-        return False
-    scale = max(1.0, float(np.max(np.abs(a))) if a.size else 1.0, float(np.max(np.abs(b))) if b.size else 1.0)
-    return bool(np.all(np.abs(a - b) <= tol * scale))
-
-
-def gram_to_matrix(G):
-    """some J (m x m) with J J^T = G"""
-    G = np.asarray(arr(G), dtype=float)
-    lam, V = np.linalg.eigh((G + G.T) / 2)
-    lam = np.clip(lam, 0, None)
-    return V @ np.diag(np.sqrt(lam))
-
-
-def dist_to_matrix(D):
-    """points realising a distance matrix (classical MDS); None if D is not Euclidean"""
-    D = np.asarray(arr(D), dtype=float)
-    m = D.shape[0]
-    H = np.eye(m) - np.ones((m, m)) / m
-    Bm = -0.5 * H @ (D ** 2) @ H
-    lam, V = np.linalg.eigh((Bm + Bm.T) / 2)
-    if lam.min() < -1e-9 * max(1.0, abs(lam).max()):
-        return None
-    X = V @ np.diag(np.sqrt(np.clip(lam, 0, None)))
-    D2 = np.sqrt(((X[:, None, :] - X[None, :, :]) ** 2).sum(-1))
-    if not np.allclose(D2, D, atol=1e-9 * max(1.0, D.max())):
-        return None
-    return X
-
-
-def t64(x):
-    return torch.tensor(np.asarray(x, dtype=float), dtype=torch.float64)
-
-
-class patched:
-    def __init__(self, obj, name, new):
-        self.obj, self.name, self.new = obj, name, new
-
-    def __enter__(self):
-        self.old = getattr(self.obj, self.name)
-        setattr(self.obj, self.name, self.new)
-
-    def __exit__(self, *a):
-        setattr(self.obj, self.name, self.old)
-
-
-HANDLERS = {}
-
-
-def handler(kind):
-    def deco(f):
-        HANDLERS[kind] = f
-        return f
-    return deco
-
-
-def expect_value_error(fn):
-    try:
-        fn()
-    except ValueError:
-        return dict(reproduced=False, note="ValueError raised as required")
-    except Exception as e:  # noqa
-        return dict(reproduced=True, note=f"raised {type(e).__name__} instead of ValueError: {e}")
-    return dict(reproduced=True, note="no exception raised")
-
-
-# ------------------------------------------------------------------------------------------- C18
-def _pc_reference_vec(J, orders):
-    m = J.shape[0]
-    tot = np.zeros(J.shape[1])
-    for i in range(m):
-        g = J[i].copy()
-        for j in orders[i]:
-            if j == i:
-                continue
-            ip = g @ J[j]
-            if ip < 0:
-                g = g - ip / (J[j] @ J[j]) * J[j]
-        tot += g
-    return tot
-
-
-@handler("pcgrad")
-def r_pcgrad(c):
-    from torchjd.aggregation import PCGrad
-    J = gram_to_matrix(c["G"]) if "G" in c else np.asarray(arr(c["J"]), dtype=float)
-    orders = [list(map(int, o)) for o in c["orders"]]
-    it = iter(orders)
-    with patched(torch, "randperm", lambda n, **k: torch.tensor(next(it))):
-        out = PCGrad()(t64(J)).numpy()
-    ref = _pc_reference_vec(J, orders)
-    return dict(reproduced=not close(out, ref), out=out.tolist(), reference=ref.tolist(), J=J.tolist())
-
-
-HANDLERS["pcgrad_vec"] = r_pcgrad
-
-
-@handler("mgda")
-def r_mgda(c):
-    from torchjd.aggregation import MGDA
-    J = gram_to_matrix(c["G"])
-    G = J @ J.T
-    A = MGDA(epsilon=num(c["epsilon"]), max_iters=int(c["iters"]))
-    a = A.weighting(t64(J)).numpy()
-    m = len(a)
-    q = lambda v: float(v @ G @ v)
-    s = max(1.0, abs(G).max())
-    bad = []
-    if abs(a.sum() - 1) > TOL or a.min() < -TOL:
-        bad.append("not on the simplex")
-    if q(a) > q(np.ones(m) / m) + TOL * s:
-        bad.append("longer than the mean")
-    if m == 2 and c.get("ob") == "mgda_m2_exact_min_norm_point":
-        ts = np.linspace(0, 1, 20001)
-        best = min(q(np.array([t, 1 - t])) for t in ts)
-        if q(a) > best + 1e-5 * s:
-            bad.append(f"not the min-norm point of the segment: {q(a)} vs {best}")
-    return dict(reproduced=bool(bad), why=bad, alpha=a.tolist(), J=J.tolist())
-
-
-@handler("random")
-def r_random(c):
-    from torchjd.aggregation import Random
-    J = gram_to_matrix(c["G"])
-    w = Random().weighting(t64(J)).numpy()
-    return dict(reproduced=bool(abs(w.sum() - 1) > TOL or w.min() <= 0), w=w.tolist())
-
-
-@handler("graddrop")
-def r_graddrop(c):
-    from torchjd.aggregation import GradDrop
-    J = np.asarray(arr(c["J"]), dtype=float)
-    U = np.asarray(arr(c["U"]), dtype=float)
-    leak = None if c.get("leak") is None else np.asarray(arr(c["leak"]), dtype=float)
-    m, n = J.shape
-    lk = leak if leak is not None else np.zeros(m)
-    ref = np.zeros(n)
-    for j in range(n):
-        col = J[:, j]
-        sabs = np.abs(col).sum()
-        if sabs == 0:
-            continue
-        P = 0.5 * (1 + col.sum() / sabs)
-        for i in range(m):
-            kept = (P > U[j] and col[i] > 0) or (P < U[j] and col[i] < 0)
-            ref[j] += col[i] if kept else lk[i] * col[i]
-    with patched(torch, "rand", lambda *a, **k: t64(U)):
-        out = GradDrop(leak=None if leak is None else t64(leak))(t64(J)).numpy()
-    return dict(reproduced=not close(out, ref), out=out.tolist(), reference=ref.tolist())
-
-
-@handler("cagrad")
-def r_cagrad(c):
-    from torchjd.aggregation import CAGrad
-    J = gram_to_matrix(c["G"])
-    cc, eps = num(c["c"]), num(c["norm_eps"])
-    A = CAGrad(c=cc, norm_eps=eps)
-    out = A(t64(J)).numpy()
-    g0 = J.mean(0)
-    lhs, rhs = float(np.linalg.norm(out - g0)), cc * float(np.linalg.norm(g0))
-    zero = float(np.linalg.norm(out)) <= 1e-12
-    ok = zero or abs(lhs - rhs) <= 1e-4 * max(1.0, rhs)
-    return dict(reproduced=not ok, dist=lhs, expected=rhs, out=out.tolist())
-
-
-# ------------------------------------------------------------------------------------------- C16
-@handler("trimmed_mean")
-def r_tm(c):
-    from torchjd.aggregation import TrimmedMean
-    J = np.asarray(arr(c["J"]), dtype=float)
-    b = int(c["b"])
-    m, n = J.shape
-    out = TrimmedMean(b)(t64(J)).numpy()
-    ref = np.array([sum(sorted(J[:, j])[b:m - b]) / (m - 2 * b) for j in range(n)])
-    bad = not close(out, ref)
-    return dict(reproduced=bad, out=out.tolist(), reference=ref.tolist())
-
-
-@handler("tm_reject")
-def r_tm_reject(c):
-    from torchjd.aggregation import TrimmedMean
-    return expect_value_error(lambda: TrimmedMean(int(c["b"]))(torch.zeros(int(c["m"]), int(c["n"]), dtype=torch.float64)))
-
-
-@handler("tm_ctor")
-def r_tm_ctor(c):
-    from torchjd.aggregation import TrimmedMean
-    return expect_value_error(lambda: TrimmedMean(-1))
-
-
-@handler("krum")
-def r_krum(c):
-    from torchjd.aggregation import Krum
-    D = np.asarray(arr(c["dist"]), dtype=float)
-    m = D.shape[0]
-    f, k = int(c["f"]), int(c["k"])
-    X = dist_to_matrix(D)
-    A = Krum(n_byzantine=f, n_selected=k)
-    if X is not None:
-        out_w = A.weighting(t64(X)).numpy()
-        how = "euclidean realisation of the distance matrix"
-    else:
-        with patched(torch, "cdist", lambda a, b, **kw: t64(D)):
-            out_w = A.weighting(torch.zeros(m, 1, dtype=torch.float64)).numpy()
-        how = "torch.cdist stubbed to return the (non-Euclidean) counterexample distances"
-    scores = [sum(sorted(D[i][j] for j in range(m) if j != i)[:m - f - 2]) for i in range(m)]
-    sel = [i for i in range(m) if out_w[i] > 0]
-    bad = []
-    if len(sel) != k or not np.allclose(out_w[sel], 1.0 / k):
-        bad.append("weights are not 1/k on k rows")
-    for i in sel:
-        for j in range(m):
-            if j not in sel and scores[i] > scores[j] + 1e-9 * max(1.0, abs(scores[j])):
-                bad.append(f"row {i} selected although row {j} has a smaller score")
-    return dict(reproduced=bool(bad), why=bad[:3], weights=out_w.tolist(), scores=scores, how=how)
-
-
-@handler("krum_reject")
-def r_krum_reject(c):
-    from torchjd.aggregation import Krum
-    return expect_value_error(lambda: Krum(int(c["f"]), int(c["k"]))(torch.zeros(int(c["m"]), 2, dtype=torch.float64)))
-
-
-@handler("krum_ctor")
-def r_krum_ctor(c):
-    from torchjd.aggregation import Krum
-    return expect_value_error(lambda: Krum(n_byzantine=int(c["n_byzantine"]), n_selected=int(c["n_selected"])))
+from _lib import HANDLERS
 
 
 def main():
     c = json.load(open(sys.argv[1]))
-    # extra handler modules
-    for mod in ("real_agg", "real_autojac"):
-        try:
-            __import__(mod)
-        except ModuleNotFoundError as e:
-            if mod not in str(e):
-                raise
+    for f in sorted(glob.glob(os.path.join(os.path.dirname(os.path.abspath(__file__)), "real_*.py"))):
+        __import__(os.path.basename(f)[:-3])
     h = HANDLERS.get(c.get("kind"))
     if h is None:
         print("REPLAY " + json.dumps(dict(reproduced=None, error=f"no replay handler for kind {c.get('kind')}")))
